@@ -519,6 +519,24 @@ def run(ctx):
     extras2(ctx)
     ctx.flush()
 
+# ---- round-5 lesson: results depend on the content of the array, not on the identity of the array object ---------------------------------
+
+def extras_refill(ctx):
+    from eqsig.fns import peaks_and_crossings as pc
+    gen.refill_oracle(ctx, 'C11 the same ndarray object changed in place and analysed again gives the indices / counter of its CURRENT content (%s)',
+                      {'get_peak_array_indices': pc.get_peak_array_indices, 'ptype=max': lambda x: pc.get_peak_array_indices(x, ptype='max'),
+                       'ptype=min': lambda x: pc.get_peak_array_indices(x, ptype='min'), 'get_n_cyc_array': pc.get_n_cyc_array},
+                      ctx.rng, lambda rng: gen.int_record(rng, 24, -5, 5), n_rep=4 if ctx.tier == 'quick' else 40)
+
+
+_run_main_rf = run
+
+
+def run(ctx):
+    _run_main_rf(ctx)
+    extras_refill(ctx)
+    ctx.flush()
+
 
 # evidence: how the model is tied to the source on every run (as built, supersedes the value above)
 TIE = 'translator (fns/peaks_and_crossings.py -> Gen/PeaksFns; Props/C11Gen, all series and arguments) + correspondence (exhaustive over small alphabets, exact)'
